@@ -151,6 +151,8 @@ package base
 //@   ensures[looked-up-under-their-merged-key] util.mkpos[0] == 0 && util.mkpos[len(lastmkeys)] == len(lastmkey) && util.mergedof(lastmkey, util.mkpos, lastmkeys, len(lastmkeys))
 //@   ensures[selects-the-entry-of-that-key] has(pcounter.keySetPairs, lastmks) && pcounter.keySetPairs[lastmks].inputCounter == result && pcounter.currentCustomCounters === pcounter.keySetPairs[lastmks].customCounters
 //@   ensures[existing-entry-is-reused] old(has(pcounter.keySetPairs, now(lastmks))) ==> result == old(pcounter.keySetPairs[now(lastmks)].inputCounter)
+// the entries hold the counts not yet written to the metrics (until the next UpdateMetrics): none is ever dropped from the table
+//@   ensures[no-key-set-with-its-unwritten-counts-is-forgotten] pcounter.keySetPairs == old(pcounter.keySetPairs) && forall k int :: old(rawhas(pcounter.keySetPairs, k)) ==> rawhas(pcounter.keySetPairs, k) && rawget(pcounter.keySetPairs, k).inputCounter == old(rawget(pcounter.keySetPairs, k).inputCounter)
 //@   ensures[key-buffer-reset] len(pcounter.mergeKeyBuffer) == 0
 
 // ==== counter providers (C19): a count is kept as (value already written to the metric) + (unwritten value); counting adds
